@@ -13,6 +13,7 @@ package getopt
 import (
 	"fmt"
 	"strings"
+	"unicode/utf8"
 
 	"src.elv.sh/pkg/errutil"
 )
@@ -244,13 +245,16 @@ func parseShort(s string, specs []*OptionSpec) ([]*Option, bool) {
 	var opts []*Option
 	var needArg bool
 	for i, r := range s {
+		// The width of the rune in s; differs from len(string(r)) when s
+		// contains invalid UTF-8.
+		_, size := utf8.DecodeRuneInString(s[i:])
 		opt := findShort(r, specs)
 		if opt != nil {
 			if opt.Arity == NoArgument {
 				opts = append(opts, &Option{Spec: opt})
 				continue
 			} else {
-				parsed := &Option{Spec: opt, Argument: s[i+len(string(r)):]}
+				parsed := &Option{Spec: opt, Argument: s[i+size:]}
 				opts = append(opts, parsed)
 				needArg = parsed.Argument == "" && opt.Arity == RequiredArgument
 				break
@@ -259,7 +263,7 @@ func parseShort(s string, specs []*OptionSpec) ([]*Option, bool) {
 		// Unknown option, treat as taking an optional argument
 		parsed := &Option{
 			Spec: &OptionSpec{r, "", OptionalArgument}, Unknown: true,
-			Argument: s[i+len(string(r)):]}
+			Argument: s[i+size:]}
 		opts = append(opts, parsed)
 		break
 	}
